@@ -35,14 +35,15 @@ CONSTANTS UseFile,          \* TRUE: cases come from IOEnv.LEXER_CASES (JSON)
           PlainOnly,        \* Grow mode: only sources without any delimiter start (C11)
           Emit              \* print one JSON line per finished case
 
-VARIABLES cas,            \* the case: [id, ps (pieces), c (cfg), st (structured)]
+VARIABLES cas,            \* the case: [id, ps (pieces), c (cfg), st (structured), alt]
           src,           \* normalised source
           pos, lineno, stack, bal, lineStarting,    \* tokeniter locals
           toks,          \* emitted raw tokens
-          outcome,       \* "running" | "eof" | <<"error", kind, lineno>>
+          outcome,       \* <<"running" | "eof" | "error", kind, lineno>>
+          decl,          \* ghost: what the declarative layer says about this case
           phase          \* "grow" | "start" | "lex" | "done"
 
-vars == <<cas, src, pos, lineno, stack, bal, lineStarting, toks, outcome, phase>>
+vars == <<cas, src, pos, lineno, stack, bal, lineStarting, toks, outcome, decl, phase>>
 
 Input == JsonDeserialize(IOEnv.LEXER_CASES)
 
@@ -75,20 +76,22 @@ EndAlt(q, d, plus, trimmable) ==
     ELSE 0
 
 \* {%(\-|\+|)\s*raw\s*(?:\-%}\s*|%})       -- never a "+", never block_suffix_re
+Only(S) == CHOOSE x \in S : TRUE      \* {f(x) : x \in {e}} evaluates e once
+
 RawBeginMatch(p) ==
     IF ~StartsWithAt(src, p, C.bs) THEN NoMatch
-    ELSE LET sm == SignMatch(p + Len(C.bs))
-             b  == RunEnd(src, sm.e, WsChars)
-         IN  IF Ch(b) # "R" THEN NoMatch
-             ELSE [e |-> EndAlt(RunEnd(src, b + 1, WsChars), C.be, FALSE, FALSE), sg |-> sm.sg]
+    ELSE Only({ IF Ch(b) # "R" THEN NoMatch
+                ELSE [e |-> EndAlt(RunEnd(src, b + 1, WsChars), C.be, FALSE, FALSE),
+                      sg |-> SignMatch(p + Len(C.bs)).sg]
+                : b \in {RunEnd(src, SignMatch(p + Len(C.bs)).e, WsChars)} })
 
 \* {%(\-|\+|)\s*endraw\s*(?:\+%}|\-%}\s*|%}\n?)
 RawEndMatch(q) ==
     IF ~StartsWithAt(src, q, C.bs) THEN NoMatch
-    ELSE LET sm == SignMatch(q + Len(C.bs))
-             b  == RunEnd(src, sm.e, WsChars)
-         IN  IF Ch(b) # "E" THEN NoMatch
-             ELSE [e |-> EndAlt(RunEnd(src, b + 1, WsChars), C.be, TRUE, TRUE), sg |-> sm.sg]
+    ELSE Only({ IF Ch(b) # "E" THEN NoMatch
+                ELSE [e |-> EndAlt(RunEnd(src, b + 1, WsChars), C.be, TRUE, TRUE),
+                      sg |-> SignMatch(q + Len(C.bs)).sg]
+                : b \in {RunEnd(src, SignMatch(q + Len(C.bs)).e, WsChars)} })
 
 AtLineStart(p) == p = 1 \/ Ch(p - 1) = "n"
 
@@ -139,9 +142,13 @@ AltMatch(alt, p) ==
       [] alt.name = "linecomment_begin" -> LineCommentBeginMatch(p)
       [] OTHER -> TagBeginMatch(p, alt.d)
 
-FirstAlt(A, p) ==
-    LET J == {j \in 1..Len(A) : AltMatch(A[j], p).e > 0}
-    IN  IF J = {} THEN 0 ELSE MinOf(J)
+\* regex alternation: the first alternative, in order, that matches at p
+RECURSIVE FirstAltFrom(_, _, _)
+FirstAltFrom(A, j, p) ==
+    IF j > Len(A) THEN 0
+    ELSE IF AltMatch(A[j], p).e > 0 THEN j ELSE FirstAltFrom(A, j + 1, p)
+
+FirstAlt(A, p) == FirstAltFrom(A, 1, p)
 
 \* (.*?) is lazy: the earliest position where some alternative matches
 \* (pure optimisation: positions whose character cannot begin any
@@ -157,16 +164,20 @@ ScanDirective(A, fc, p) ==
 
 DirectivePos == LET A == Alts IN ScanDirective(A, FirstChars(A), pos)
 
+\* index after the last "n" in src[a, p), or a when there is none
+RECURSIVE LineStartFrom(_, _)
+LineStartFrom(p, a) == IF p <= a \/ src[p - 1] = "n" THEN p ELSE LineStartFrom(p - 1, a)
+
 (* OptionalLStrip post-processing of the text [a, b) in front of a tag:     *)
 (* d = end of what is kept, nls = newlines_stripped                         *)
 LStrip(a, b, sign, isVar) ==
     IF sign = "-" THEN                                  \* text.rstrip()
-        LET d == RunStart(src, b, a, WsChars) IN [d |-> d, nls |-> CountNl(src, d, b)]
+        Only({[d |-> d, nls |-> CountNl(src, d, b)] : d \in {RunStart(src, b, a, WsChars)}})
     ELSE IF sign # "+" /\ C.lstrip /\ ~isVar THEN
-        LET nlIdx == {i \in a..(b - 1) : src[i] = "n"}
-            lp == IF nlIdx = {} THEN a ELSE MaxOf(nlIdx) + 1      \* l_pos
-        IN  IF (nlIdx # {} \/ lineStarting) /\ lp < b /\ AllIn(src, lp, b, WsChars)
-            THEN [d |-> lp, nls |-> 0] ELSE [d |-> b, nls |-> 0]
+        \* lp = l_pos = text.rfind("\n") + 1;   lp > a  iff  the text holds a "\n"
+        Only({ IF (lp > a \/ lineStarting) /\ lp < b /\ AllIn(src, lp, b, WsChars)
+               THEN [d |-> lp, nls |-> 0] ELSE [d |-> b, nls |-> 0]
+               : lp \in {IF a >= b THEN a ELSE LineStartFrom(b, a)} })
     ELSE [d |-> b, nls |-> 0]
 
 (* ------------------------------------------------------------------------ *)
@@ -181,7 +192,7 @@ OutIdxOf(ts) ==
              \o OutIdxOf(Tail(ts))
 
 ExpectedOut ==
-    IF cas.st THEN Cat(DeclOut(cas.ps, C))
+    IF cas.st THEN Cat(OutChars(decl.src, decl.out, C.nl))
     ELSE IF NoDelimStart(Raw, C) THEN Cat(ExpectedPlain(Raw, C))
     ELSE "?"
 
@@ -200,17 +211,28 @@ Finish(ts, oc) ==
 (* ------------------------------------------------------------------------ *)
 (* inputs                                                                    *)
 (* ------------------------------------------------------------------------ *)
+\* the declarative layer, evaluated once per case (LexerRules.tla)
+NoDecl == [src |-> <<>>, occ |-> <<>>, out |-> <<>>, L |-> {}, R |-> {}]
+Declared(ps, c) ==
+    Only({ Only({ Only({ [src |-> S, occ |-> occ, out |-> DeclOutIdxOf(S, c, occ),
+                          L |-> rem.L, R |-> rem.R]
+                         : rem \in {Removed(S, c, occ)} })
+                  : occ \in {Occurrences(ps, c)} })
+           : S \in {DeclSrc(ps, c)} })
+
+\* alt = the same program written for another configuration (C13), c = 0: none
+NoAlt == [ps |-> <<>>, c |-> 0]
 CaseOf(i) == [id |-> i, ps |-> Input.cases[i].ps, c |-> Input.cfgs[Input.cases[i].c],
-              st |-> Input.cases[i].st]
+              st |-> Input.cases[i].st, alt |-> Input.cases[i].alt]
 
 Init ==
     /\ IF UseFile
-       THEN /\ cas \in {CaseOf(i) : i \in 1..Len(Input.cases)}
+       THEN /\ \E i \in 1..Len(Input.cases) : cas = CaseOf(i)
             /\ phase = "start"
-       ELSE /\ cas \in {[id |-> 0, ps |-> <<>>, c |-> c, st |-> GrowStructured] : c \in GrowCfgs}
+       ELSE /\ cas \in {[id |-> 0, ps |-> <<>>, c |-> c, st |-> GrowStructured, alt |-> NoAlt] : c \in GrowCfgs}
             /\ phase = "grow"
     /\ src = <<>> /\ pos = 1 /\ lineno = 1 /\ stack = <<"root">> /\ bal = <<>>
-    /\ lineStarting = TRUE /\ toks = <<>> /\ outcome = "running"
+    /\ lineStarting = TRUE /\ toks = <<>> /\ outcome = <<"running", "", 0>> /\ decl = NoDecl
 
 RECURSIVE InRaw(_, _)
 InRaw(ps, r) == IF ps = <<>> THEN r
@@ -224,47 +246,50 @@ Grow ==
             IN  ~(f # <<>> /\ g # <<>> /\ f[Len(f)] = "r" /\ g[1] = "n")
          /\ PlainOnly => NoDelimStart(FlatAll(cas.ps, C) \o PieceFlat(p, C), C)
          /\ cas' = [cas EXCEPT !.ps = Append(@, p)]
-    /\ UNCHANGED <<src, pos, lineno, stack, bal, lineStarting, toks, outcome, phase>>
+    /\ UNCHANGED <<src, pos, lineno, stack, bal, lineStarting, toks, outcome, decl, phase>>
 
 Start ==
     /\ phase \in {"grow", "start"}
     /\ cas.st => RawBalanced(cas.ps, FALSE)
     /\ src' = SplitJoin(Raw, C.keep)
+    /\ decl' = IF cas.st THEN Declared(cas.ps, C) ELSE NoDecl
     /\ phase' = "lex"
     /\ UNCHANGED <<cas, pos, lineno, stack, bal, lineStarting, toks, outcome>>
 
 (* ------------------------------------------------------------------------ *)
 (* root state                                                                *)
 (* ------------------------------------------------------------------------ *)
+\* (\E x \in {e} : ... binds x to the VALUE of e: TLC would re-evaluate a LET
+\* definition at every use inside an action)
 RootDirective(p) ==
-    LET alt == Alts[FirstAlt(Alts, p)]
-        m   == AltMatch(alt, p)
-        st  == LStrip(pos, p, m.sg, alt.name = "variable_begin")
-        ln1 == lineno + CountNl(src, pos, st.d) + st.nls
-    IN  /\ toks' = toks
+    \E alt \in {Alts[FirstAlt(Alts, p)]} :
+    \E m \in {AltMatch(alt, p)} :
+    \E st \in {LStrip(pos, p, m.sg, alt.name = "variable_begin")} :
+    \E ln1 \in {lineno + CountNl(src, pos, st.d) + st.nls} :
+        /\ toks' = toks
                    \o (IF st.d > pos THEN <<Tok(lineno, "data", pos, st.d)>> ELSE <<>>)
                    \o <<Tok(ln1, alt.name, p, m.e)>>
         /\ lineno' = ln1 + CountNl(src, p, m.e)
         /\ stack' = Append(stack, alt.name)
         /\ lineStarting' = (src[m.e - 1] = "n")
         /\ pos' = m.e
-        /\ UNCHANGED <<cas, src, bal, outcome, phase>>
+        /\ UNCHANGED <<cas, decl, src, bal, outcome, phase>>
 
 RootData ==
     /\ toks' = Append(toks, Tok(lineno, "data", pos, N + 1))
     /\ lineno' = lineno + CountNl(src, pos, N + 1)
     /\ lineStarting' = (src[N] = "n")
     /\ pos' = N + 1
-    /\ UNCHANGED <<cas, src, stack, bal, outcome, phase>>
+    /\ UNCHANGED <<cas, decl, src, stack, bal, outcome, phase>>
 
 \* no rule matches and the text is used up: tokeniter returns (in any state)
 Eof ==
-    /\ Finish(toks, "eof")
-    /\ UNCHANGED <<cas, src, pos, lineno, stack, bal, lineStarting>>
+    /\ Finish(toks, <<"eof", "", 0>>)
+    /\ UNCHANGED <<cas, decl, src, pos, lineno, stack, bal, lineStarting>>
 
-RootStep ==
-    IF pos > N THEN Eof
-    ELSE LET p == DirectivePos IN IF p > 0 THEN RootDirective(p) ELSE RootData
+InRoot == phase = "lex" /\ Top = "root" /\ pos <= N
+RootDirectiveStep == InRoot /\ \E p \in {DirectivePos} : p > 0 /\ RootDirective(p)
+RootDataStep == InRoot /\ DirectivePos = 0 /\ RootData
 
 (* ------------------------------------------------------------------------ *)
 (* comment state      (.*?)((?:\+#}|\-#}\s*|#}\n?))   |   (.) -> Failure     *)
@@ -274,23 +299,23 @@ ScanCommentEnd(q) ==
     IF q > N THEN 0 ELSE IF EndAlt(q, C.ce, TRUE, TRUE) > 0 THEN q ELSE ScanCommentEnd(q + 1)
 
 CommentEnd(q) ==
-    LET e == EndAlt(q, C.ce, TRUE, TRUE)
-        ln1 == lineno + CountNl(src, pos, q)
-    IN  /\ toks' = toks \o (IF q > pos THEN <<Tok(lineno, "comment", pos, q)>> ELSE <<>>)
+    \E e \in {EndAlt(q, C.ce, TRUE, TRUE)} :
+    \E ln1 \in {lineno + CountNl(src, pos, q)} :
+        /\ toks' = toks \o (IF q > pos THEN <<Tok(lineno, "comment", pos, q)>> ELSE <<>>)
                         \o <<Tok(ln1, "comment_end", q, e)>>
         /\ lineno' = ln1 + CountNl(src, q, e)
         /\ lineStarting' = (src[e - 1] = "n")
         /\ pos' = e
         /\ stack' = SubSeq(stack, 1, Len(stack) - 1)
-        /\ UNCHANGED <<cas, src, bal, outcome, phase>>
+        /\ UNCHANGED <<cas, decl, src, bal, outcome, phase>>
 
 CommentMissingEnd ==
     /\ Finish(toks, <<"error", "Missing end of comment tag", lineno>>)
-    /\ UNCHANGED <<cas, src, pos, lineno, stack, bal, lineStarting>>
+    /\ UNCHANGED <<cas, decl, src, pos, lineno, stack, bal, lineStarting>>
 
-CommentStep ==
-    IF pos > N THEN Eof
-    ELSE LET q == ScanCommentEnd(pos) IN IF q > 0 THEN CommentEnd(q) ELSE CommentMissingEnd
+InComment == phase = "lex" /\ Top = "comment_begin" /\ pos <= N
+CommentEndStep == InComment /\ \E q \in {ScanCommentEnd(pos)} : q > 0 /\ CommentEnd(q)
+CommentMissingEndStep == InComment /\ ScanCommentEnd(pos) = 0 /\ CommentMissingEnd
 
 (* ------------------------------------------------------------------------ *)
 (* block / variable / line statement states: end rule first (only while the  *)
@@ -314,7 +339,7 @@ TagEnd(ty, e) ==
     /\ lineStarting' = (e > pos /\ src[e - 1] = "n")
     /\ pos' = e
     /\ stack' = SubSeq(stack, 1, Len(stack) - 1)
-    /\ UNCHANGED <<cas, src, bal, outcome, phase>>
+    /\ UNCHANGED <<cas, decl, src, bal, outcome, phase>>
 
 BlockEnd(e) == TagEnd("block_end", e)
 VariableEnd(e) == TagEnd("variable_end", e)
@@ -328,20 +353,20 @@ PlainOps == {"%", "-", "+", "<", ">", "=", "~", "|", ",", ".", ":", "/", "*"}
 IsOp(p) == Ch(p) \in PlainOps \cup OpenChars \cup CloseChars \/ (Ch(p) = "!" /\ Ch(p + 1) = "=")
 
 TagWhitespace ==
-    LET e == RunEnd(src, pos, WsChars)
-    IN  /\ toks' = Append(toks, Tok(lineno, "whitespace", pos, e))
+    \E e \in {RunEnd(src, pos, WsChars)} :
+        /\ toks' = Append(toks, Tok(lineno, "whitespace", pos, e))
         /\ lineno' = lineno + CountNl(src, pos, e)
         /\ lineStarting' = (src[e - 1] = "n")
         /\ pos' = e
-        /\ UNCHANGED <<cas, src, stack, bal, outcome, phase>>
+        /\ UNCHANGED <<cas, decl, src, stack, bal, outcome, phase>>
 
 \* names, numbers, strings: opaque here (Literals.tla / C14 look inside)
 TagAtoms ==
-    LET e == RunEnd(src, pos, AtomChars)
-    IN  /\ toks' = Append(toks, Tok(lineno, "atom", pos, e))
+    \E e \in {RunEnd(src, pos, AtomChars)} :
+        /\ toks' = Append(toks, Tok(lineno, "atom", pos, e))
         /\ pos' = e
         /\ lineStarting' = FALSE
-        /\ UNCHANGED <<cas, src, lineno, stack, bal, outcome, phase>>
+        /\ UNCHANGED <<cas, decl, src, lineno, stack, bal, outcome, phase>>
 
 TagOperator ==
     LET c == src[pos]
@@ -359,22 +384,26 @@ TagOperator ==
                /\ toks' = Append(toks, Tok(lineno, "atom", pos, pos + 1))
                /\ pos' = pos + 1 /\ lineStarting' = FALSE
                /\ UNCHANGED <<outcome, phase>>
-        /\ UNCHANGED <<cas, src, lineno, stack>>
+        /\ UNCHANGED <<cas, decl, src, lineno, stack>>
 
 UnexpectedChar ==
     /\ Finish(toks, <<"error", "unexpected char", lineno>>)
-    /\ UNCHANGED <<cas, src, pos, lineno, stack, bal, lineStarting>>
+    /\ UNCHANGED <<cas, decl, src, pos, lineno, stack, bal, lineStarting>>
 
-TagStep ==
-    LET e == IF bal = <<>> THEN TagEndPos ELSE 0
-    IN  IF e > 0 THEN
-            (IF Top = "block_begin" THEN BlockEnd(e)
-             ELSE IF Top = "variable_begin" THEN VariableEnd(e) ELSE LineStatementEnd(e))
-        ELSE IF pos > N THEN Eof
-        ELSE IF IsWs(src[pos]) THEN TagWhitespace
-        ELSE IF src[pos] \in AtomChars THEN TagAtoms
-        ELSE IF IsOp(pos) THEN TagOperator
-        ELSE UnexpectedChar
+InTag == phase = "lex" /\ Top \in {"block_begin", "variable_begin", "linestatement_begin"}
+\* the end rule fires only while the balancing stack is empty
+FiringEnd == IF bal = <<>> THEN TagEndPos ELSE 0
+InTagBody == InTag /\ FiringEnd = 0 /\ pos <= N
+
+BlockEndStep == InTag /\ Top = "block_begin" /\ \E e \in {FiringEnd} : e > 0 /\ BlockEnd(e)
+VariableEndStep == InTag /\ Top = "variable_begin" /\ \E e \in {FiringEnd} : e > 0 /\ VariableEnd(e)
+LineStatementEndStep ==
+    InTag /\ Top = "linestatement_begin" /\ \E e \in {FiringEnd} : e > 0 /\ LineStatementEnd(e)
+TagWhitespaceStep == InTagBody /\ IsWs(src[pos]) /\ TagWhitespace
+TagAtomsStep == InTagBody /\ src[pos] \in AtomChars /\ TagAtoms
+TagOperatorStep == InTagBody /\ IsOp(pos) /\ TagOperator
+UnexpectedCharStep ==
+    InTagBody /\ ~IsWs(src[pos]) /\ src[pos] \notin AtomChars /\ ~IsOp(pos) /\ UnexpectedChar
 
 (* ------------------------------------------------------------------------ *)
 (* raw state                                                                 *)
@@ -384,25 +413,25 @@ ScanRawEnd(q) ==
     IF q > N THEN 0 ELSE IF RawEndMatch(q).e > 0 THEN q ELSE ScanRawEnd(q + 1)
 
 RawEnd(q) ==
-    LET m == RawEndMatch(q)
-        st == LStrip(pos, q, m.sg, FALSE)
-        ln1 == lineno + CountNl(src, pos, st.d) + st.nls
-    IN  /\ toks' = toks
+    \E m \in {RawEndMatch(q)} :
+    \E st \in {LStrip(pos, q, m.sg, FALSE)} :
+    \E ln1 \in {lineno + CountNl(src, pos, st.d) + st.nls} :
+        /\ toks' = toks
                    \o (IF st.d > pos THEN <<Tok(lineno, "data", pos, st.d)>> ELSE <<>>)
                    \o <<Tok(ln1, "raw_end", q, m.e)>>
         /\ lineno' = ln1 + CountNl(src, q, m.e)
         /\ lineStarting' = (src[m.e - 1] = "n")
         /\ pos' = m.e
         /\ stack' = SubSeq(stack, 1, Len(stack) - 1)
-        /\ UNCHANGED <<cas, src, bal, outcome, phase>>
+        /\ UNCHANGED <<cas, decl, src, bal, outcome, phase>>
 
 RawMissingEnd ==
     /\ Finish(toks, <<"error", "Missing end of raw directive", lineno>>)
-    /\ UNCHANGED <<cas, src, pos, lineno, stack, bal, lineStarting>>
+    /\ UNCHANGED <<cas, decl, src, pos, lineno, stack, bal, lineStarting>>
 
-RawStep ==
-    IF pos > N THEN Eof
-    ELSE LET q == ScanRawEnd(pos) IN IF q > 0 THEN RawEnd(q) ELSE RawMissingEnd
+InRawState == phase = "lex" /\ Top = "raw_begin" /\ pos <= N
+RawEndStep == InRawState /\ \E q \in {ScanRawEnd(pos)} : q > 0 /\ RawEnd(q)
+RawMissingEndStep == InRawState /\ ScanRawEnd(pos) = 0 /\ RawMissingEnd
 
 (* ------------------------------------------------------------------------ *)
 (* line comment state      (.*?)()(?=\n|$)    (matches even the empty text)  *)
@@ -411,24 +440,35 @@ RECURSIVE NextNl(_)
 NextNl(p) == IF p > N \/ src[p] = "n" THEN p ELSE NextNl(p + 1)
 
 LineComment ==
-    LET q == NextNl(pos)
-    IN  /\ toks' = toks \o (IF q > pos THEN <<Tok(lineno, "linecomment", pos, q)>> ELSE <<>>)
+    \E q \in {NextNl(pos)} :
+        /\ toks' = toks \o (IF q > pos THEN <<Tok(lineno, "linecomment", pos, q)>> ELSE <<>>)
                         \o <<Tok(lineno, "linecomment_end", q, q)>>
         /\ pos' = q
         /\ lineStarting' = FALSE
         /\ stack' = SubSeq(stack, 1, Len(stack) - 1)
-        /\ UNCHANGED <<cas, src, lineno, bal, outcome, phase>>
+        /\ UNCHANGED <<cas, decl, src, lineno, bal, outcome, phase>>
 
-\* one iteration of the `while True` loop, dispatched on the state on top
-LexStep ==
-    /\ phase = "lex"
-    /\ IF Top = "root" THEN RootStep
-       ELSE IF Top = "comment_begin" THEN CommentStep
-       ELSE IF Top = "raw_begin" THEN RawStep
-       ELSE IF Top = "linecomment_begin" THEN LineComment
-       ELSE TagStep
+LineCommentStep == phase = "lex" /\ Top = "linecomment_begin" /\ LineComment
 
-Next == Grow \/ Start \/ LexStep
+\* no rule matches and the text is used up: tokeniter returns, in any state
+\* (the end rule of a line statement and the line comment rule match the
+\* empty text at the end, so they fire first)
+EofStep ==
+    /\ phase = "lex" /\ pos > N
+    /\ Top # "linecomment_begin"
+    /\ ~(Top = "linestatement_begin" /\ bal = <<>>)
+    /\ Eof
+
+\* one iteration of the `while True` loop of tokeniter
+Next ==
+    \/ Grow \/ Start
+    \/ RootDirectiveStep \/ RootDataStep
+    \/ CommentEndStep \/ CommentMissingEndStep
+    \/ BlockEndStep \/ VariableEndStep \/ LineStatementEndStep
+    \/ TagWhitespaceStep \/ TagAtomsStep \/ TagOperatorStep \/ UnexpectedCharStep
+    \/ RawEndStep \/ RawMissingEndStep
+    \/ LineCommentStep
+    \/ EofStep
 
 Spec == Init /\ [][Next]_vars
 
@@ -436,12 +476,11 @@ Spec == Init /\ [][Next]_vars
 (* properties                                                                *)
 (* ======================================================================== *)
 Done == phase = "done"
-DoneOk == phase = "done" /\ outcome = "eof"
+DoneOk == phase = "done" /\ outcome[1] = "eof"
 TokSet == {toks[i] : i \in 1..Len(toks)}
 Covered == UNION {t[3]..(t[4] - 1) : t \in TokSet}
 OpOutIdx == OutIdxOf(toks)
-DOcc == Occurrences(cas.ps, C)
-DRem == Removed(src, C, DOcc)
+DOcc == decl.occ
 EndTypes == {"block_end", "variable_end", "comment_end", "raw_end", "raw_begin"}
 
 \* the harness only hands over sources whose piece structure is the truth
@@ -464,16 +503,16 @@ C39_Lossless ==
          /\ Covered \subseteq 1..(pos - 1)
     /\ DoneOk => pos = N + 1
     /\ DoneOk /\ cas.st =>
-         /\ (1..N) \ Covered = DRem.L
-         /\ DRem.R \subseteq UNION {t[3]..(t[4] - 1) : t \in {t \in TokSet : t[2] \in EndTypes}}
+         /\ (1..N) \ Covered = decl.L
+         /\ decl.R \subseteq UNION {t[3]..(t[4] - 1) : t \in {t \in TokSet : t[2] \in EndTypes}}
 
 \* C12: sources built from well-formed pieces always lex to the end
-C12_StructuredSourcesLex == Done /\ cas.st => outcome = "eof"
+C12_StructuredSourcesLex == Done /\ cas.st => outcome[1] = "eof"
 
 \* C12: data tokens + variable tags = source minus tags minus declared removals
 C12_OperationalEqualsDeclared ==
-    DoneOk /\ cas.st => /\ src = DeclSrc(cas.ps, C)
-                       /\ OpOutIdx = DeclOutIdx(cas.ps, C)
+    DoneOk /\ cas.st => /\ src = decl.src
+                       /\ OpOutIdx = decl.out
 
 \* C12: nothing but whitespace outside tags is ever dropped
 C12_OnlyWhitespaceRemoved ==
@@ -495,7 +534,7 @@ C12_VariableTagsUntouchedByOptions ==
 \* as itself, line breaks replaced, at most one final line break dropped
 C11_PlainVerbatim ==
     Done /\ NoDelimStart(Raw, C) =>
-        /\ outcome = "eof"
+        /\ outcome[1] = "eof"
         /\ toks = (IF src = <<>> THEN <<>> ELSE <<Tok(1, "data", 1, N + 1)>>)
         /\ OutChars(src, OpOutIdx, C.nl) = ExpectedPlain(Raw, C)
 
@@ -506,6 +545,13 @@ C11_CommentsSilent ==
             o.k \in {"comment", "lcomment"} =>
                 \A j \in 1..Len(OpOutIdx) : OpOutIdx[j] \notin o.s..(o.e - 1)
 
+\* C13: the same program written with other delimiters / as line statements
+\* and line comments renders to the same text (declarative layer; each
+\* variant is also a case of its own, where operational = declared is checked)
+C13_TranslationPreservesOutput ==
+    DoneOk /\ cas.st /\ cas.alt.c > 0 =>
+        OutChars(decl.src, decl.out, C.nl) = DeclOut(cas.alt.ps, Input.cfgs[cas.alt.c])
+
 \* C11: a raw body is output verbatim, contiguous, minus only what its own
 \* two tags remove
 C11_RawVerbatim ==
@@ -513,8 +559,7 @@ C11_RawVerbatim ==
         \A pr \in RawPairs(DOcc) :
             LET o1 == DOcc[pr[1]]
                 o2 == DOcc[pr[2]]
-                lo == o1.e + Cardinality(RightSet(src, C, o1))
-                hi == o2.s - Cardinality(LeftSet(src, C, o2, lo))
-            IN  SelectSeq(OpOutIdx, LAMBDA j : j >= o1.e /\ j < o2.s)
-                    = [k \in 1..(hi - lo) |-> lo + k - 1]
+                lo == o1.e + RightLen(src, C, o1)
+                hi == o2.s - LeftLen(src, C, o2, lo)
+            IN  SelectSeq(OpOutIdx, LAMBDA j : j >= o1.e /\ j < o2.s) = Range(lo, hi)
 =============================================================================
